@@ -176,4 +176,33 @@ example : parseSum [(1, [97, 98])] 9 (.text [97, 98, 32, 32, 120, 46, 121, 10]) 
 example : parseSum [(1, [97, 98])] 9 (.text [65, 66, 32, 32, 120, 10]) = .avail 1 := by decide
 example : (download id (start (some 1) [] [parseSum [(1, [97, 98])] 9 (.text [65, 98, 13, 10])])).2 = .skipped := by decide
 
+/-! ### "HTTP error" is every 4xx / 5xx status, on either URL (`_download`, phylib/io/datasets.py:53-59) -/
+
+/-- A data request answered with ANY client or server error status (400 ≤ status < 600: 400, 401, 403, 404, 410, 429,
+500, 502, 503, ...) raises, whatever the error page holds: whenever the call returns normally, every data request
+that was made got a status outside 4xx / 5xx.  The data script is given as what the server sends, (status, body). -/
+theorem http_error_status_raises (hash : Nat → Nat) (prior : Option Nat) (ds : List (Nat × Nat))
+    (ss : List SumResp)
+    (hret : (download hash (start prior (ds.map fun a => dataOfStatus a.1 a.2) ss)).2 = .skipped ∨
+            (download hash (start prior (ds.map fun a => dataOfStatus a.1 a.2) ss)).2 = .done) :
+    ∀ a ∈ ds.take (nData (download hash (start prior (ds.map fun a => dataOfStatus a.1 a.2) ss)).1.log),
+      isHttpError a.1 = false :=
+  Lemmas.http_error_status_raises hash prior ds ss hret
+
+/-- The checksum URL answering with any 4xx / 5xx status is "checksum unavailable", whatever the error page holds
+(its text is never parsed: not a mismatch, not a checksum). -/
+theorem error_status_checksum_unavailable (render : List (Nat × List Nat)) (other status : Nat) (t : List Nat)
+    (h : isHttpError status = true) : parseSum render other (sumOfStatus status t) = .missing :=
+  Lemmas.sum_of_error_status render other status t h
+
+/-! Non-vacuity: 400 / 503 on the first data request, 429 on the retry; 200 hands the body on; an error page on the
+checksum URL whose text is the digest of the file is still "unavailable". -/
+example : (download id (start none ([(400, 7), (200, 1)].map fun a => dataOfStatus a.1 a.2) [])).2 = .httpError := by decide
+example : (download id (start (some 2) ([(503, 7)].map fun a => dataOfStatus a.1 a.2) [.missing])).2 = .httpError := by decide
+example : (download id (start none ([(200, 2), (429, 7)].map fun a => dataOfStatus a.1 a.2) [.avail 1])).2 = .httpError := by decide
+example : (download id (start none ([(200, 1)].map fun a => dataOfStatus a.1 a.2) [.avail 1])).2 = .done := by decide
+example : isHttpError 400 = true ∧ isHttpError 599 = true ∧ isHttpError 399 = false ∧ isHttpError 600 = false := by decide
+example : parseSum [(1, [97, 98])] 9 (sumOfStatus 400 [97, 98]) = .missing := by decide
+example : parseSum [(1, [97, 98])] 9 (sumOfStatus 200 [97, 98]) = .avail 1 := by decide
+
 end PhyVerif.C20
